@@ -24,6 +24,7 @@ CONFIGS = [
     ("mem-longkey", ["--mode", "mem", "--ttl", "1", "--longkey", "1"]),
     ("pers-v3-longkey", ["--mode", "pers", "--fmt", "3", "--cache", "0", "--ttl", "1", "--longkey", "1"]),
     ("pers-v1-longkey", ["--mode", "pers", "--fmt", "1", "--cache", "1", "--ttl", "0", "--longkey", "1"]),
+    ("pers-v2-longkey", ["--mode", "pers", "--fmt", "2", "--cache", "0", "--ttl", "1", "--longkey", "1"]),
 ]
 
 
